@@ -228,6 +228,28 @@ def mvnd_obligations(chk):
         if null:
             obs.append(Obligation(f"MVND[{pname}]: samples minus location are orthogonal to the null space of the precision (lie in its range space)", [es], g_range,
                                   signature=f"mvnd:{tag}:sample-range", timeout_s=120))
+        # the sampler's factor S (samples = loc + S z): S S^T is the Moore-Penrose pseudo-inverse of the precision
+        def spc(v_, K=K):
+            S = MVND(jnp.zeros(K.shape[0]), K / v_)._sqrt_pcov
+            return S @ S.T
+        ep = chk.note_enc(Enc(f"MVND[{pname}]._sqrt_pcov", spc, (1.3,), (sc(var),), domain=dom))
+
+        def g_pinv(V, Kc=Kc, n=n, var=var, sep=sep):
+            C = V.out                                         # S S^T
+            P = [[float(Kc[i][j]) / var for j in range(n)] for i in range(n)]
+            mm = lambda A, B: [[sum(A[i][k] * B[k][j] for k in range(n)) for j in range(n)] for i in range(n)]
+            Cl = [[C[i, j] for j in range(n)] for i in range(n)]
+            PCP, CPC = mm(mm(P, Cl), P), mm(mm(Cl, P), Cl)
+            tol = z3.RealVal("1/10000")
+            gl = []
+            for i in range(n):
+                for j in range(n):
+                    gl += [(PCP[i][j] - P[i][j]) * var <= tol, (PCP[i][j] - P[i][j]) * var >= -tol,            # P C P = P
+                           (CPC[i][j] - Cl[i][j]) <= tol * var, (CPC[i][j] - Cl[i][j]) >= -tol * var,          # C P C = C
+                           Cl[i][j] - Cl[j][i] <= tol * var, Cl[i][j] - Cl[j][i] >= -tol * var]                # symmetric
+            return sep, z3.And(*gl)
+        obs.append(Obligation(f"MVND[{pname}]: the sampler's factor S satisfies the Moore-Penrose equations, S S^T = pseudo-inverse of the precision (covariance of the samples)", [ep], g_pinv,
+                              signature=f"mvnd:{tag}:pinv", timeout_s=300, tactic="default"))
     # general symbolic precision (n = 2): null-space invariance over the eigh contract
     n = 2
     P = np.empty((n, n), dtype=object)
